@@ -286,6 +286,26 @@ pub fn compile_with(sp: &Sprite, rng: &mut Rng, v: &Variation, palprog: &Palette
             let level = if v.storage { rng.below(10) as u32 } else { 6 };
             f0.push(ChunkSpec::Tileset { t: t.clone(), level, reserved }.into());
         }
+        // sixth round: a palette edit that arrives AFTER the tileset chunks (what Aseprite writes when the palette of a
+        // sprite with tilesets is edited later) - a sub-range re-listed with its final values merges into the palette
+        let has_new_palette_chunk = match palprog {
+            PaletteProgram::Auto => true,
+            PaletteProgram::Chunks(cs) => cs.iter().any(|c| matches!(c, ChunkSpec::Palette { .. })),
+        };
+        if v.split && has_new_palette_chunk && !sp.tilesets.is_empty() {
+            if let Some(pal) = &sp.palette {
+                if !pal.is_empty() && rng.chance(1, 2) {
+                    let keys: Vec<u32> = pal.keys().cloned().collect();
+                    let a = rng.usize_below(keys.len());
+                    let b = a + rng.usize_below((keys.len() - a).min(4));
+                    // a chunk lists consecutive indices
+                    if (keys[b] - keys[a]) as usize == b - a {
+                        let part: std::collections::BTreeMap<u32, PalEntryM> = keys[a..=b].iter().map(|k| (*k, pal[k].clone())).collect();
+                        f0.push(palette_chunk(&part, rng, v.junk).into());
+                    }
+                }
+            }
+        }
         for l in &sp.layers {
             let junk = if v.junk { LayerJunk { default_w: rng.u32() as u16, default_h: rng.u32() as u16, r1: rng.u8(), r2: rng.u32() as u16 } } else { LayerJunk { default_w: 0, default_h: 0, r1: 0, r2: 0 } };
             let mut item: ChunkItem = ChunkSpec::Layer { l: l.clone(), junk }.into();
